@@ -141,3 +141,30 @@ def decide_by_cases(A, B, quats=()):
         if v == UNKNOWN and worst == EQUAL:
             worst, detail = UNKNOWN, "case %s: %s" % (label, d)
     return worst, detail
+
+
+def pull_positive(M, lam):
+    """For a symbol lam assumed > 0: sqrt(lam^(2k) P) -> lam^k sqrt(P) and fabs(lam^k P) -> lam^k fabs(P), recursively.
+    Exact for lam > 0; lets homogeneity in a positive scale factor be decided by canonical forms."""
+    def split(p):
+        e = None
+        for mono in p.t:
+            d = dict(mono).get(lam, 0)
+            e = d if e is None else min(e, d)
+        return e or 0
+
+    def f(a):
+        if a.kind in ("sqrt", "fabs") and isinstance(a.key[0], Poly):
+            inner = deep_subs(a.key[0], f)
+            e = split(inner)
+            k = (e // 2) if a.kind == "sqrt" else e
+            if k > 0:
+                drop = 2 * k if a.kind == "sqrt" else k
+                rest = Poly({tuple((x, n - drop if x is lam else n) for x, n in mono if not (x is lam and n - drop == 0)): c for mono, c in inner.t.items()})
+                return cm.un(a.kind, rest) * Poly({((lam, k),): 1})
+            if inner != a.key[0]:
+                return cm.un(a.kind, inner)
+        return None
+    if isinstance(M, Poly):
+        return deep_subs(M, f)
+    return MatVal(M.r, M.c, [[deep_subs(p, f) if p.t else p for p in row] for row in M.cells], M.kind)
